@@ -26,7 +26,10 @@ func RunW1(p *Profile, plan, sched *simrt.Source, trace bool) *RunOut {
 		order[i], order[j] = order[j], order[i]
 	}
 	text := RenderSet(order)
-	ncalls := g.Range(p.MinCalls, p.MaxCalls)
+	ncalls := 1 + g.Intn(p.MaxCalls)
+	if g.Pct(75) && ncalls < p.MinCalls {
+		ncalls = p.MinCalls
+	}
 	sc := &Scenario{Universe: rules}
 	sc.Index()
 	for i := 0; i < ncalls; i++ {
